@@ -4,6 +4,7 @@ from __future__ import annotations
 import ast
 from typing import Any, Dict, List, Optional, Tuple
 
+from ..engine.effects import typed_writes
 from ..engine.match import Spec, loop_doms, require_return, residual
 from ..engine.repo import AnalysisError
 from ..engine.report import Check
@@ -365,6 +366,24 @@ def r08_5(ck: Check) -> None:
         ck.ok("R08.5", construct, "%d inserts between BEGIN and COMMIT" % len(inserts), w.summ.fi.loc)
     else:
         ck.violated("R08.5", construct, "statement sequence: %s" % [t[1][:30] for t in texts], w.summ.fi.loc)
+    # rows are inserted parents-first with respect to the foreign keys (foreign_keys = ON, immediate checking)
+    sch = schema(ck)
+    order: Dict[str, int] = {}
+    for i, e in enumerate(ex):
+        if e.parts[0][2] == "executemany" and e.term[2] and e.term[2][0][0] == "c":
+            for ins in sch.inserts:
+                if ins.node.args[0].value == e.term[2][0][1]:
+                    order.setdefault(ins.table, i)
+    for t in sch.tables.values():
+        for cols, rt, rcols in t.fks:
+            if rt == t.name or t.name not in order or rt not in order:
+                continue
+            construct = "write_blocks_to_disk: rows of %s are inserted before the rows of %s that reference them" % (rt, t.name)
+            if order[rt] < order[t.name]:
+                ck.ok("R08.5", construct, "", w.summ.fi.loc)
+            else:
+                ck.violated("R08.5", construct, "with foreign keys enforced, a batch in which a %s row references a %s row of the same batch "
+                            "fails with an IntegrityError, nothing of the batch is stored and later flushes fail too" % (t.name, rt), w.summ.fi.loc)
     s = ck.summ(STORE + "flush_blocks_to_disk", 0)
     lock = ("a", ("v", s.fi.params[0]), "lock")
     buf = ("a", ("v", s.fi.params[0]), "write_buffer")
@@ -413,10 +432,67 @@ def r08_6(ck: Check) -> None:
         else:
             ck.ok("R08.6", construct, "a conflicting second membership raises instead of being dropped", where)
     ck.expect_count("R08.6", "membership tables", n, 1)
+    # every uniqueness constraint of a table written with OR IGNORE / OR REPLACE must contain the content id of the object the row
+    # belongs to; otherwise two DIFFERENT rows (e.g. two fork transactions spending the same output) collide and one is silently lost
+    w = Writer(ck)
+    blocks = ("v", w.summ.fi.params[1])
+    b = ("e", blocks, "elem")
+    tx = ("e", ("a", b, "transactions"), "elem")
+    txid = ("call", ("g", "skepticoin.hash.sha256d"), (("call", ("a", tx, "serialize"), (), ()),), ())
+    bid = ("call", ("a", b, "hash"), (), ())
+    for t in sch.tables.values():
+        ins = [i for i in sch.inserts if i.table == t.name]
+        if not ins or ins[0].conflict not in ("IGNORE", "REPLACE") or t.name not in w.rows:
+            continue
+        row = w.rows[t.name][0]
+        cols = ins[0].columns or t.columns
+        id_cols = {c for c, e in zip(cols, row) if e in (txid, bid)}
+        keys = [("primary key", t.pk)] + [("unique", u) for u in t.uniques] + [("unique index", u) for (tn, u, _l) in sch.unique_indexes if tn == t.name]
+        for kind, key in keys:
+            if not key:
+                continue
+            construct = "%s %s(%s) identifies the row's content under INSERT OR %s" % (t.name, kind, ",".join(key), ins[0].conflict)
+            where = "%s:%d" % (sch.module.path, t.line)
+            if set(key) & id_cols:
+                ck.ok("R08.6", construct, "contains the content id column(s) %s" % sorted(set(key) & id_cols), where)
+            else:
+                ck.violated("R08.6", construct, "the key contains no content id: two different rows (for instance from two competing blocks) can "
+                            "collide on it and INSERT OR %s silently drops or replaces one" % ins[0].conflict, where)
     lt = [s for s in sch.selects if s.table == "transaction_locator"]
     if lt and not lt[0].order_by:
         ck.assume("A1: transaction_locator is read without ORDER BY; the order of transactions inside a block and the itertools.groupby grouping "
                   "rely on SQLite returning rows in insertion order (static analysis sees the missing ORDER BY, it cannot decide the scan order)")
+
+
+def r08_7(ck: Check, rule: str = "R08.7") -> None:
+    """the per-transaction row collectors are per-instance containers: a class-level mutable default would be shared by all builders"""
+    tw = typed_writes(ck.walker, ck.repo)
+    owners = {}
+    for w in tw:
+        if w.func.startswith(STORE) and w.kind in ("item-store", "item-del") or (w.func.startswith(STORE) and w.kind.startswith("call:")):
+            if w.owner.startswith(BS) and w.owner != BS + "BlockStore":
+                owners.setdefault((w.owner, w.attr), w)
+    n = 0
+    for (owner, attr), w in sorted(owners.items()):
+        n += 1
+        ci = ck.repo.cls(owner)
+        init = ci.methods.get("__init__")
+        fresh = False
+        if init is not None:
+            s = ck.summ(init.qualname, 0)
+            for e in s.events:
+                if e.kind == "store" and e.term == ("a", ("v", init.params[0]), attr) and e.value is not None and e.value[0] in ("new", "dict", "list", "set") \
+                        and not e.loops:
+                    fresh = True
+        construct = "%s.%s is a fresh container per instance (filled by %s)" % (short(owner), attr, short(w.func).split(".")[-1])
+        if fresh:
+            ck.ok(rule, construct, "", ci.module.path)
+        else:
+            shared = attr in ci.class_attrs
+            ck.violated(rule, construct, "the container is %s, so rows of different transactions overwrite each other and every transaction read "
+                        "back carries the same inputs/outputs under its own stored id" % ("a class-level attribute shared by all instances" if shared
+                                                                                          else "not created in __init__"), ci.module.path)
+    ck.expect_count(rule, "row-collector containers", n, 2)
 
 
 def check(ck: Check) -> None:
@@ -430,6 +506,7 @@ def check(ck: Check) -> None:
     ck.run("R08.4", "parents first; reload by re-adding from the empty state", lambda: r08_4(ck))
     ck.run("R08.5", "one SQL transaction per flush; buffer handling under the lock", lambda: r08_5(ck))
     ck.run("R08.6", "key multiplicity vs domain multiplicity", lambda: r08_6(ck))
+    ck.run("R08.7", "row collectors are per-instance", lambda: r08_7(ck))
     from .c07 import r07_1_2, r07_5
     ck.run("R07.1", "codec mirror of consensus classes (signature/public-key blobs round-trip)", lambda: r07_1_2(ck, True, "R07.1"))
     ck.assume("SQLite semantics (primary keys, OR IGNORE, ORDER BY) as documented")
